@@ -52,7 +52,7 @@ def c05(tier, seed):
     for y in years:
         crop = rnd.choice(["Cotton", "CottonGDD"]) if y in (1984, 1987, 1988) else rnd.choice(["Cotton", "CottonGDD", "Sorghum", "SorghumGDD", "Maize", "Sunflower", "Soybean"])
         scs.append(L.builtin_scenario(crop, y, irr={"method": 1, "kw": {"SMT": [rnd.choice([20, 20, 30])] * 4, "MaxIrr": rnd.choice([6, 6, 8])}}))
-    scs += L.hard_cases(rnd, None if tier == "thorough" else 5)
+    scs += L.hard_cases(rnd)
     return scs
 
 
@@ -98,7 +98,7 @@ def c06(tier, seed):
                          off_season=rnd.random() < 0.4, iwc=rnd.choice([None, {"value": ["WP"]}, {"wc_type": "Pct", "value": [25]}]),
                          regime=rnd.choice([None, "arid"]) if crop in L.CAL_CROPS else None,
                          harvest_date=rnd.choice([None, None, "08/15"]) if crop in L.CAL_CROPS and L.MATURITY_CD[crop] > 125 else None))
-    scs += L.hard_cases(rnd, None if tier == "thorough" else 4)
+    scs += L.hard_cases(rnd)
     return scs
 
 
@@ -127,6 +127,7 @@ def c12(tier, seed):
         scs.append(S(crop, seed=rnd.randrange(10 ** 6), soil_spec={"type": rnd.choice(L.SOILS[:13]), "kw": kw},
                      seasons=rnd.choice([1, 2]) if L.MATURITY_CD[crop] < 250 else 1, off_season=rnd.random() < 0.4,
                      irr=rnd.choice(L.irr_variants(rnd, None, None, (4, 20), 2001)), field=rnd.choice(L.field_variants())))
+    scs += L.hard_cases(rnd)
     return scs
 
 
@@ -163,6 +164,7 @@ def c13(tier, seed):
                          regime=rnd.choice(["arid", "warm"]) if crop in L.CAL_CROPS else None,
                          seasons=rnd.choice([1, 2]), off_season=rnd.random() < 0.4, lead=rnd.choice([0, 10]),
                          iwc=rnd.choice([None, {"value": ["WP"]}])))
+    scs += L.hard_cases(rnd)
     return scs
 
 
@@ -195,4 +197,5 @@ def c19(tier, seed):
                      iwc=rnd.choice([{"value": ["FC"] * nl, "depth_layer": list(range(1, nl + 1))}, {"value": ["WP"] * nl, "depth_layer": list(range(1, nl + 1))}])))
     # no table at all: CR = GwIn = 0
     scs.append(S("Maize", "Loam", seed=seed + 7))
+    scs += L.hard_cases(rnd, 8)
     return scs
